@@ -507,7 +507,7 @@ func c6Write(c *Ctx) {
 	}
 	name := fn.String()
 	var coreWrite, hook, put *ssa.Call
-	for _, cl := range Calls(fn) {
+	for _, cl := range CallsDeep(fn) {
 		call, _ := cl.(*ssa.Call)
 		switch {
 		case IsCallTo(cl, "(go.uber.org/zap/zapcore.Core).Write"):
@@ -522,10 +522,16 @@ func c6Write(c *Ctx) {
 		c.Bad("R6.3", name, "shape", fn.Pos(), "expected Core.Write, hook.OnWrite and putCheckedEntry calls")
 		return
 	}
-	ok, over, why := LoopVisitsAll(fn, coreWrite)
-	c.Check(ok && over == "ce.cores", "R6.3", name, "all-cores", coreWrite.Pos(), "every accepting core is written (range over %s, no early exit) %s", over, why)
-	a := Args(coreWrite)
-	c.Check(Desc(a[1]) == "ce.Entry" && Strip(a[2]) == ssa.Value(fn.Params[1]), "R6.3", name, "same-entry-and-fields", coreWrite.Pos(), "each core receives ce.Entry and the caller's fields (%s, %s)", Desc(a[1]), Desc(a[2]))
+	rc := fn.Params[0].Name()
+	ok, over, why := LoopVisitsAll(coreWrite.Parent(), coreWrite)
+	var d1, d2 string
+	Bound(func() {
+		a := Args(coreWrite)
+		d1, d2 = Desc(a[1]), Desc(a[2])
+		over = strings.Replace(over, coreWrite.Parent().Params[0].Name()+".", rc+".", 1)
+	})
+	c.Check(ok && over == rc+".cores", "R6.3", name, "all-cores", coreWrite.Pos(), "every accepting core is written (range over %s, no early exit) %s", over, why)
+	c.Check(d1 == rc+".Entry" && d2 == fn.Params[1].Name(), "R6.3", name, "same-entry-and-fields", coreWrite.Pos(), "each core receives ce.Entry and the caller's fields (%s, %s)", d1, d2)
 	isAny := func(x ...*ssa.Call) func(ssa.Instruction) bool {
 		return func(i ssa.Instruction) bool {
 			for _, y := range x {
@@ -536,21 +542,20 @@ func c6Write(c *Ctx) {
 			return false
 		}
 	}
-	c.Check(!ExistsPath(fn, hook, isAny(coreWrite), nil) && !ExistsPath(fn, put, isAny(hook, coreWrite), nil), "R6.3", name, "order", hook.Pos(), "cores are written before the hook runs, and the entry is recycled only after the hook")
+	c.Check(!ExistsPath(fn, hook, isAny(coreWrite), nil) && !ExistsPath(fn, put, isAny(hook, coreWrite), nil) && ExistsPath(fn, coreWrite, isAny(hook), nil), "R6.3", name, "order", hook.Pos(), "cores are written before the hook runs, and the entry is recycled only after the hook")
 	// hook guard set
 	extra := []string{}
 	for _, g := range AtomStrings(Guards(hook)) {
 		switch {
-		case g == "ce != nil", g == "!ce.dirty", g == "ce.after != nil", strings.Contains(g, "rangeindex"):
+		case g == rc+" != nil", g == "!"+rc+".dirty", g == rc+".after != nil", strings.Contains(g, "rangeindex"):
 		default:
 			extra = append(extra, g)
 		}
 	}
-	c.Check(len(extra) == 0 && Desc(Args(hook)[0]) == "ce.after", "R6.3", name, "hook-unconditional", hook.Pos(), "the attached hook runs whenever it is set, independent of core errors (extra guards %v)", extra)
-	// after the dirty check passed, the hook test is on every path to return
-	iff, t, _ := BranchOn(fn, "ce.after != nil")
-	_ = iff
-	c.Check(t != nil && Dominates(hook, hook) == false && t == hook.Block(), "R6.3", name, "hook-branch", hook.Pos(), "hook call sits directly under the ce.after != nil test")
+	c.Check(len(extra) == 0 && Desc(Args(hook)[0]) == rc+".after", "R6.3", name, "hook-unconditional", hook.Pos(), "the attached hook runs whenever it is set, independent of core errors (extra guards %v)", extra)
+	// once the dirty check passed, every path to the return evaluates the hook test
+	_, t, _ := BranchOn(hook.Parent(), rc+".after != nil")
+	c.Check(t != nil && t == hook.Block(), "R6.3", name, "hook-branch", hook.Pos(), "hook call sits directly under the ce.after != nil test")
 }
 
 func c6Sync(c *Ctx, lv map[string]int64) {
